@@ -344,6 +344,39 @@ def check_exp(rep, mod, tier):
                                 ok = True
                                 why = 'loop variable %s is replaced by %s >> %d each iteration and the loop exits when it is zero: at most 64 iterations' % (
                                     ph.dst, ph.dst, d[1].a[1][1])
+    if hdr and not ok:
+        # counted form: the exit test compares an induction variable (phi, incremented by a positive constant) with a
+        # bound defined outside the loop: bound - i is a ranking function
+        dom = fi.dominators()
+        loop = {hdr}
+        for b, ss in fi.succ.items():
+            if hdr in ss and hdr in dom[b]:
+                todo = [b]
+                while todo:
+                    x = todo.pop()
+                    if x in loop:
+                        continue
+                    loop.add(x)
+                    todo += [q for q, qs in fi.succ.items() if x in qs]
+        for ph in [i for i in fi.fn.blocks[hdr] if i.op == 'phi']:
+            step = None
+            for v, l in ph.a:
+                if v[0] == 'r':
+                    d = fi.defs.get(v[1])
+                    if d and d[1].op == 'add' and ('r', ph.dst) in d[1].a:
+                        k = [a for a in d[1].a if a != ('r', ph.dst)]
+                        if k and k[0][0] == 'i' and 1 <= k[0][1] < (1 << 31):
+                            step = k[0][1]
+            if step is None:
+                continue
+            for ub, u in fi.users(ph.dst):
+                if u.op == 'icmp' and ub == hdr and u.x in ('slt', 'ult', 'sle', 'ule', 'ne') and u.a[0] == ('r', ph.dst):
+                    bnd = u.a[1]
+                    inv = bnd[0] == 'i' or (bnd[0] == 'r' and (fi.defs.get(bnd[1]) is None or fi.defs[bnd[1]][0] not in loop))
+                    if inv and (u.x != 'ne' or step == 1):
+                        ok = True
+                        why = 'induction variable %s grows by %d each iteration and the loop exits when it reaches the loop-invariant bound %s' % (
+                            ph.dst, step, bnd[1])
     site = site_of(mod, name)
     if ok:
         rep.ok('exp:termination', 'ranking-function', site, why)
